@@ -59,9 +59,28 @@ def parseAp : List Char → Option (List (Nat × Nat))
     else none
   | _ => none
 
+/-- `f<field>`: the value of the two-octet My-AS field when it is given separately (the four-octet
+capability then carries `<asn>`) -/
+def parseField (s : String) : Option Nat :=
+  match s.toList with
+  | 'f' :: ds => num (String.ofList ds) 65535
+  | _ => none
+
+/-- `<asn>:<hold>:<ap>[:f<field>]`.  mirrors `OpenMessage::my_asn` (src/bgp/message/open.rs:93): the AS
+number of the Four-Octet AS Number capability when the OPEN carries one, else the two-octet field.
+In the request syntax `<asn>` IS the capability value whenever a capability is present (asn > 65535 or
+`f<field>` given) and the field value otherwise, so the peer's AS is `<asn>` in every case and
+`<field>` never reaches the FSM. -/
 def parseOpen (ps : List String) : Option OpenInfo :=
   match ps with
-  | [a, h, ap] =>
+  | [a, h, ap, f] =>
+    match parseField f with
+    | some _ => parseOpen3 a h ap
+    | none => none
+  | [a, h, ap] => parseOpen3 a h ap
+  | _ => none
+where
+  parseOpen3 (a h ap : String) : Option OpenInfo :=
     match num a 4294967295, num h 65535 with
     | some a, some h =>
       if ap == "-" then some ⟨a, h, []⟩
@@ -70,7 +89,6 @@ def parseOpen (ps : List String) : Option OpenInfo :=
         | some l => some ⟨a, h, l⟩
         | none => none
     | _, _ => none
-  | _ => none
 
 def simpleEvent (k : Nat) : Option Event :=
   match k with
@@ -178,20 +196,6 @@ def parseBurst (s : String) : Option DTick :=
     | _, _ => none
   | _ => none
 
-def parseTickSteps : List String → Option (List DTick)
-  | [] => some []
-  | s :: rest =>
-    let one : Option DTick :=
-      if s == "c" then some (.one .closed)
-      else if s == "cD" then some (.one .cmdDisconnect)
-      else if s == "cK" then some (.one .cmdKeepalive)
-      else if s.startsWith "bU:" then parseBurst s
-      else if s.startsWith "w" then (msgOfToken s).map (fun m => .one (.frame m))
-      else (parseStep s).map (fun i => .one (.direct i))
-    match one, parseTickSteps rest with
-    | some i, some l => some (i :: l)
-    | _, _ => none
-
 def burstRun (cfg : Cfg) (n : Nat) : Nat → St → List Out → TickResult
   | 0, s, acc => .res (.next s true acc)
   | k + 1, s, acc =>
@@ -205,29 +209,103 @@ def dtickStep (cfg : Cfg) (s : St) : DTick → TickResult
   | .one t => tickStep cfg s t
   | .burst k n => if !s.conn then .noConn else burstRun cfg n k s []
 
-def runDTick (cfg : Cfg) : St → List DTick → List TickResult
-  | _, [] => []
-  | s, i :: rest =>
-    match dtickStep cfg s i with
-    | .res (.next s' ok outs) => .res (.next s' ok outs) :: runDTick cfg s' rest
-    | r => [r]
-
 def showTick : TickResult → String
   | .noConn => "noconn"
   | .res r => showResult r
+
+/-- capacity of the `pdu_out` queue the harness gives the session -/
+def pduCap : Nat := 64
+
+/-- `q<room>`: from now on the application leaves only `room` free slots in `pdu_out` at the start
+of every step -/
+def parseRoom (s : String) : Option Nat :=
+  match s.toList with
+  | 'q' :: ds => num (String.ofList ds) pduCap
+  | _ => none
+
+def roomRecord (s : St) : String := showResult (.next s true [])
+
+/-- what of a step's output reaches the outgoing queue (`send_pdu` = `try_send`) -/
+def queued (room : Nat) : StepResult → StepResult
+  | .next s ok outs => .next s ok (accepted room outs)
+  | r => r
+
+/-- one `h` line: session state, clock of the three polled timers, free slots of `pdu_out` -/
+def runHistQ (cfg : Cfg) : St → Clock → Nat → List String → Option (List String)
+  | _, _, _, [] => some []
+  | s, c, room, w :: rest =>
+    match parseRoom w with
+    | some r => (runHistQ cfg s c r rest).map (roomRecord s :: ·)
+    | none =>
+      if w.startsWith "q" then none
+      else if w == "T" then
+        -- `Session::tick()` with nothing pending but the timers (paused clock)
+        match tickTimer cfg s c with
+        | .idle => if parseStepsOk rest then some ["idle"] else none
+        | .tie => if parseStepsOk rest then some ["tie"] else none
+        | .fired _ (.next s' ok outs) c' =>
+          (runHistQ cfg s' c' room rest).map (showResult (queued room (.next s' ok outs)) :: ·)
+        | .fired _ r _ => if parseStepsOk rest then some [showResult r] else none
+      else
+      match parseStep w with
+      | none => none
+      | some i =>
+        match handleInput cfg s i with
+        | .next s' ok outs =>
+          (runHistQ cfg s' (clockInput cfg s c i) room rest).map (showResult (queued room (.next s' ok outs)) :: ·)
+        | r => if (parseStepsOk rest) then some [showResult r] else none
+where
+  parseStepsOk : List String → Bool
+    | [] => true
+    | w :: rest => ((parseRoom w).isSome || w == "T" || (!(w.startsWith "q") && (parseStep w).isSome)) && parseStepsOk rest
+
+def parseTickStep1 (s : String) : Option DTick :=
+  if s == "c" then some (.one .closed)
+  else if s == "cM" || s == "wX" then some (.one .readErr)
+  else if s == "cD" then some (.one .cmdDisconnect)
+  else if s == "cK" then some (.one .cmdKeepalive)
+  else if s.startsWith "bU:" then parseBurst s
+  else if s.startsWith "w" then (msgOfToken s).map (fun m => .one (.frame m))
+  else if s.startsWith "q" then none
+  else (parseStep s).map (fun i => .one (.direct i))
+
+def runDTickQ (cfg : Cfg) : St → Nat → List String → Option (List String)
+  | _, _, [] => some []
+  | s, room, w :: rest =>
+    match parseRoom w with
+    | some r => (runDTickQ cfg s r rest).map (roomRecord s :: ·)
+    | none =>
+      match parseTickStep1 w with
+      | none => none
+      | some i =>
+        match dtickStep cfg s i with
+        | .res (.next s' ok outs) => (runDTickQ cfg s' room rest).map (showResult (queued room (.next s' ok outs)) :: ·)
+        | r => if parseTickOk rest then some [showTick r] else none
+where
+  parseTickOk : List String → Bool
+    | [] => true
+    | w :: rest => ((parseRoom w).isSome || (parseTickStep1 w).isSome) && parseTickOk rest
 
 def handle (ws : List String) : String :=
   match ws with
   | "t" :: cfg :: steps =>
     if steps.isEmpty then "bad-op" else
-    match parseCfg cfg, parseTickSteps steps with
-    | some cfg, some ins => " ; ".intercalate ((runDTick cfg St.fresh ins).map showTick)
-    | _, _ => "bad-op"
+    match parseCfg cfg with
+    | some cfg =>
+      match runDTickQ cfg St.fresh pduCap steps with
+      | some l => " ; ".intercalate l
+      | none => "bad-op"
+    | none => "bad-op"
   | "h" :: cfg :: init :: steps =>
     if steps.isEmpty then "bad-op" else
-    match parseCfg cfg, parseInit init, parseSteps steps with
-    | some cfg, some s, some ins => " ; ".intercalate ((runHist cfg s ins).map showResult)
-    | _, _, _ => "bad-op"
+    match parseCfg cfg, parseInit init with
+    | some cfg, some s =>
+      -- attaching a stream waits for the socket: not on a line that lets the paused clock run
+      if steps.contains "T" && steps.contains "aA" then "bad-op" else
+      match runHistQ cfg s (Clock.ofSt cfg s) pduCap steps with
+      | some l => " ; ".intercalate l
+      | none => "bad-op"
+    | _, _ => "bad-op"
   | _ => "bad-op"
 
 end Rc.Drv.C08
